@@ -27,12 +27,33 @@ func runC04Extra(c *kit.Ctx, k *keyer) {
 		// stop() joins, and startAnnouncers (whose own callers are checked).
 		running := map[*ssa.Function]bool{T("start"): true, T("handleAllocationDone"): true, T("handleVerificationDone"): true, T("handleMetadataMessage"): true}
 		starters := []*types.Func{TO("startNewAnnouncer"), TO("startAnnouncers"), TO("startAcceptor")}
+		// a helper extracted from those functions is running-only too: all of its
+		// static call sites are in running-only functions
+		var runningOnly func(fn *ssa.Function, depth int) bool
+		runningOnly = func(fn *ssa.Function, depth int) bool {
+			if running[fn] {
+				return true
+			}
+			if depth <= 0 {
+				return false
+			}
+			sites := c.StaticCallSites(fn)
+			if len(sites) == 0 {
+				return false
+			}
+			for _, site := range sites {
+				if site == nil || !runningOnly(site.Parent(), depth-1) {
+					return false
+				}
+			}
+			return true
+		}
 		n := 0
 		for _, st := range starters {
 			for _, s := range sortSites(c.CallSites(st)) {
 				n++
 				key := k.key(s.Fn, "call "+st.Name())
-				if running[s.Fn] || (s.Fn == T("startAnnouncers") && st.Name() == "startNewAnnouncer") {
+				if runningOnly(s.Fn, 3) || (s.Fn == T("startAnnouncers") && st.Name() == "startNewAnnouncer") {
 					c.Present("R04.8", key, posOf(s.Instr), "%s called from %s, which only runs in a started torrent", st.Name(), s.Fn.Name())
 					continue
 				}
@@ -46,7 +67,7 @@ func runC04Extra(c *kit.Ctx, k *keyer) {
 					st.Name()+" guarded by status() != Stopping && status() != Stopped", st.Name()+" can run while the torrent is Stopping or Stopped: an announcer/acceptor is started after stop() tore everything down (Stopped with live activity; the next start skips the original trackers)")
 			}
 		}
-		c.Floor("R04.8", "announcer/acceptor start sites", n, 10)
+		c.Floor("R04.8", "announcer/acceptor start sites", n, 4)
 	}
 
 	// ---- R04.9 a worker that stop() joins never blocks on a send without its cancel escape
